@@ -695,3 +695,14 @@ func (r *fsmRunner) prettyOnPath(v ssa.Value, p *fsmPath) string {
 	le := newLinEnv(linOpts{})
 	return le.pretty(le.norm(v))
 }
+
+// enumPaths: all paths of a loop-free function from its entry to a return, with the automaton state
+// fixed to `state` (decides `switch x.state`), forking on every other condition.
+func enumPaths(c *Ctx, e *errAnalysis, spec fsmSpec, state int64) []fsmTrans {
+	res := &fsmResult{spec: spec}
+	r := &fsmRunner{c: c, e: e, spec: spec, res: res}
+	var out []fsmTrans
+	p := fsmPath{st: state, bytes: fullSet(), verd: map[ssa.Value]VSet{}, visited: map[*ssa.BasicBlock]int{}, phis: map[*ssa.Phi]ssa.Value{}}
+	r.walk(spec.fn.Blocks[0], p, state, &out, false)
+	return out
+}
